@@ -11,7 +11,15 @@ Random long behaviours of a larger configuration (TLC -simulate) go through the 
 
 Part 2 (Merkle tree): Merkle.tla - TLC checks root/proof invariants of the transcribed queue construction for
 all leaf lists up to N over a free hash; the real functions are evaluated on every one of those lists plus a
-seeded grid of longer lists and validated by TraceMerkle.tla over the real Keccak256 as an oracle."""
+seeded grid of longer lists and validated by TraceMerkle.tla over the real Keccak256 as an oracle.
+MerkleHist.tla - HISTORIES of computations over shared leaf storage: one caller-owned append-built list, roots /
+proofs / MerkleRootSha over arbitrary prefixes and sub-ranges in any order in real caller shapes (re-slice with the
+following leaves in its capacity, clipped, freshly built, reused scratch buffer), trees kept across later calls.
+TLC checks that a tree building its node queue in an array of its own keeps the caller's list, every result and
+every kept result (negative control: building it in the caller's slice with Go's append semantics does not); every
+transition of that graph (all ordered pairs kept computation -> next computation) and seeded long histories run on
+the real code, and TraceMerkle.tla requires every result to be the pure function of the range as originally given
+and the caller's lists / kept trees, read back after every call, to be unchanged."""
 import json, os, re
 LEVEL = "model_checking"
 
@@ -26,14 +34,19 @@ MANIFEST = dict(
          "sets never yield another value) and, across all replayed paths, one root per content and one content per root. Merkle.tla: TLC checks "
          "node count, proofs verify for every position, altered leaves fail, root binds the ordered list for all lists up to N over a free hash; "
          "the real merkle functions are evaluated on all those lists and a seeded grid (<=40 leaves, repeated leaves) and validated by TLC over "
-         "the real Keccak256 as an oracle.",
+         "the real Keccak256 as an oracle. MerkleHist.tla (memory-shaped: caller's array, scratch buffer, kept trees): TLC checks ListKept / "
+         "ResultPure / HandlesStable for all histories of Compute(shape, i, j, keep) / AppendLeaf / Reread (negative control: node queue built "
+         "in the caller's slice); every transition and seeded histories (<=24 leaves, 3 kept trees, Go's natural slice growth) are executed "
+         "on the real merkle.New/Root/HashNodes/FindSiblingNodes/Verify and Transactions/ChangeLogSlice/DeputyNodes.MerkleRootSha over "
+         "slices of shared storage with cap > len; TLC validates each result against the list as originally given and that the caller's "
+         "lists and kept trees, read back after every call, are unchanged.",
     note="The adapter observes roots/reads/node paths through an independent copy of the trie object, so the trie under test is only "
          "touched by the spec's actions (Get and Hash are actions of their own). Trie.Prove is commented out in /repo; proofs are the nodes the "
          "real VerifyProof walks, served by the TrieDatabase, re-keyed by their own Keccak256 as a light client would. The free hash of the design "
          "model assumes Keccak256 is collision free and that a Merkle leaf is never the hash of a 64-byte string (an inner node presented as "
          "a leaf is accepted by FindSiblingNodes/Verify; not demanded otherwise by the property). TrieDatabase.Reference/Dereference garbage "
          "collection is not exercised (unused by the project).",
-    technique="TLA+ model checking (TrieKV.tla, Merkle.tla) + replay of the full TLC state graphs and of TLC-simulated behaviours on the real "
+    technique="TLA+ model checking (TrieKV.tla, Merkle.tla, MerkleHist.tla) + replay of the full TLC state graphs and of TLC-simulated behaviours on the real "
               "code + TLC trace validation (TraceTrieKV.tla, TraceMerkle.tla)")
 
 
@@ -145,7 +158,7 @@ def run(ctx):
         if not hsumm["action_counts"].get(need):
             raise Broken("merklehist replay never performed %s" % need)
     hdrv = ctx.path("traces", "merkle-hist.ndjson")
-    hbehs, hsteps = (25, 60) if quick else (300, 80)
+    hbehs, hsteps = (25, 60) if quick else (200, 80)
     ctx.drive("merkle-hist", ["-out", hdrv, "-seed", ctx.seed, "-behs", hbehs, "-steps", hsteps, "-maxlen", 24])
     # one validation run: the run-wide root function (one root per ordered list, one list per root) spans lists, grid and histories
     mok = ctx.validate("TraceMerkle", "TraceMerkle.cfg", mfiles + [grid] + hfiles + [hdrv],
